@@ -46,6 +46,12 @@ func hasS(e *gripql.HasExpression) *gripql.GraphStatement {
 
 // loopBody runs stmts over n travelers v0..v(n-1) (each with data {c: start}) and records "id/c" per emitted row.
 func loopBody(stmts []*gripql.GraphStatement, n int, buf int) func() {
+	return loopBodyKey(stmts, n, buf, false)
+}
+
+// loopBodyKey: with nested, the counter lives one level down ({st: {c: 0}}, key st.c): a traveler copy that
+// shares nested property maps with its original shows up as a row carrying another pass's count.
+func loopBodyKey(stmts []*gripql.GraphStatement, n int, buf int, nested bool) func() {
 	return func() {
 		pipe, err := core.NewCompiler(nil).Compile(stmts, &gdbi.CompileOptions{PipelineExtension: gdbi.VertexData, ExtensionMarkTypes: map[string]gdbi.DataType{}})
 		if err != nil {
@@ -55,7 +61,11 @@ func loopBody(stmts []*gripql.GraphStatement, n int, buf int) func() {
 		in := vs.NewChan(make(chan gdbi.Traveler, buf))
 		vs.Go(func() {
 			for i := 0; i < n; i++ {
-				t := (&gdbi.BaseTraveler{}).AddCurrent(&gdbi.DataElement{ID: fmt.Sprintf("v%d", i), Label: "L", Data: map[string]interface{}{"c": 0.0, "odd": float64(i % 2)}, Loaded: true})
+				data := map[string]interface{}{"c": 0.0, "odd": float64(i % 2)}
+				if nested {
+					data = map[string]interface{}{"st": map[string]interface{}{"c": 0.0}, "odd": float64(i % 2)}
+				}
+				t := (&gdbi.BaseTraveler{}).AddCurrent(&gdbi.DataElement{ID: fmt.Sprintf("v%d", i), Label: "L", Data: data, Loaded: true})
 				vs.PreSend(in, "harness:feed")
 				in <- t
 			}
@@ -67,7 +77,12 @@ func loopBody(stmts []*gripql.GraphStatement, n int, buf int) func() {
 		for t := range out {
 			if !t.IsSignal() {
 				c := t.GetCurrent()
-				vs.Obs(fmt.Sprintf("%s/%v", c.ID, c.Data["c"]))
+				if nested {
+					st, _ := c.Data["st"].(map[string]interface{})
+					vs.Obs(fmt.Sprintf("%s/%v", c.ID, st["c"]))
+				} else {
+					vs.Obs(fmt.Sprintf("%s/%v", c.ID, c.Data["c"]))
+				}
 			}
 			vs.PreRecv(out, "harness:collect")
 		}
@@ -155,6 +170,19 @@ func c12Scenarios(tier string) []schedScenario {
 				add(fmt.Sprintf("P1 loop/K=%d/emit=%v/N=%d/bound=%d", K, emit, n, bound), "loop", stmts, n, want, bound, budget)
 			}
 		}
+	}
+	// P1n: P1 with the counter under a nested key (st.c): every emitted copy must carry the count of its own pass
+	for _, cfg := range [][3]int{{3, 1, -1}, {2, 2, 2}} {
+		K, n, bound := cfg[0], cfg[1], cfg[2]
+		stmts := []*gripql.GraphStatement{markS("a"), incS("st.c"), hasS(gripql.Lt("st.c", float64(K))), jumpS("a", nil, true)}
+		var want []string
+		for i := 0; i < n; i++ {
+			for c := 1; c < K; c++ {
+				want = append(want, fmt.Sprintf("v%d/%d", i, c))
+			}
+		}
+		sort.Strings(want)
+		out = append(out, schedScenario{Name: fmt.Sprintf("P1n loop, nested counter/K=%d/N=%d/bound=%d", K, n, bound), Class: "loop-nested-counter", Want: want, Bound: bound, Budget: 150 * time.Second, Body: loopBodyKey(stmts, n, 1, true)})
 	}
 	// P2: two jumps to one mark with different conditions: odd travelers loop via the first jump, even ones via the second
 	for n := 0; n <= 2; n++ {
